@@ -417,4 +417,23 @@ def c15(tier):
          'lomond.websocket.WebSocket.close/send_ping', 'lomond.selectors.SelectorBase.wait/PollSelector.wait_readable'])
 
 
-PROPS = {'C15': c15, 'C16': c16, 'C17': c17, 'C19': c19, 'C10': c10, 'C07': c07, 'C08': c08, 'C09': c09, 'C13': c13, 'C03': c03, 'C02': c02, 'C05': c05, 'C01': c01, 'C04': c04, 'C14': c14}
+def c18(tier):
+    q = tier == 'quick'
+    S = lambda name, what, **P: Spec(name, 'checks.sel', 'run_sel', dict(P, xval_stride=P.get('xval_stride', 3)), what=what)
+    specs = [
+        S('drain-step-K%d' % (2 if q else 4),
+          'inductive step: real SelectorBase.wait + PollSelector.wait_readable + run() loop body + _recv against an abstract transport whose state is '
+          'two symbolic 24-bit counters (k bytes in the kernel, q bytes decrypted inside TLS; plain/TLS chosen by a solver variable; TLS record size symbolic); '
+          '%d consecutive loop iterations from an arbitrary pre-state: blocks only when k=q=0, otherwise consumes >=1 byte in zero virtual time, '
+          'count in range, no byte lost' % (2 if q else 4), K=2 if q else 4),
+    ]
+    return run_property('C18', tier, specs, 'model_checking', 'available data is drained without waiting', ENV_ASSUMPTIONS + [
+        'REDUCED SCOPE: only the loop\'s own decision logic is decided (inductive step on an abstract transport); kernel selector semantics '
+        '(select.poll/kqueue/select), real ssl.SSLSocket buffering and loopback TCP/TLS runs are executions, not solver queries, and are outside',
+        'WebSocket.feed is replaced by "consume everything" (justified by C01: every byte handed to feed is parsed in that call)',
+        'TLS recv_into clamps the requested length to the buffer (as _ssl does); q is arbitrary (over-approximates real TLS, where q <= one record)'],
+        ['lomond.selectors.SelectorBase.wait', 'lomond.selectors.PollSelector.__init__/wait_readable', 'lomond.session.WebsocketSession.run (loop body)',
+         'lomond.session.WebsocketSession._recv'])
+
+
+PROPS = {'C18': c18, 'C15': c15, 'C16': c16, 'C17': c17, 'C19': c19, 'C10': c10, 'C07': c07, 'C08': c08, 'C09': c09, 'C13': c13, 'C03': c03, 'C02': c02, 'C05': c05, 'C01': c01, 'C04': c04, 'C14': c14}
